@@ -274,4 +274,24 @@ Proof. intros I H. constructor; cbn [adj size enum labels]; try apply I.
   pose proof (i_lab _ I) as IL. unfold set_label. destruct has_store; auto.
   intros i j; unfold nb; cbn [adj]. rewrite lfind_lset. destruct (edge_eqb_spec (s, d) (i, j)) as [E|NE]; [|apply IL].
   injection E as <- <-. split; auto; discriminate. Qed.
+
+(* ---------- removeDuplicateEdges on a duplicate-free graph: nothing to do ---------- *)
+Lemma dedup_nodup_gen (l : list nat) : forall seen, NoDup l -> (forall x, In x l -> ~ In x seen) -> dedup seen l = l.
+Proof. induction l as [|x t IH]; intros seen ND D; simpl; auto. inversion ND; subst.
+  assert (mem x seen = false) as -> by (apply mem_false, D; simpl; auto).
+  f_equal. apply IH; auto. intros y Hy [<-|Hs]; [contradiction|]. apply (D y); simpl; auto. Qed.
+Lemma dedup_nodup (l : list nat) : NoDup l -> dedup [] l = l.
+Proof. intros ND; apply dedup_nodup_gen; auto. Qed.
+Lemma remove_duplicates_noop g : Inv g -> remove_duplicates g = (g, Done).
+Proof.
+  intros I. unfold remove_duplicates. rewrite (i_len _ I), Nat.leb_refl.
+  assert (A : forall a : list (list nat), (forall l, In l a -> NoDup l) ->
+     map (dedup []) a = a /\ fold_right (fun l acc => Z.of_nat (length l) - Z.of_nat (length (dedup [] l)) + acc) 0 a = 0).
+  { induction a as [|x t IH]; simpl; intros H; auto. destruct IH as [E1 E2]; [intros; apply H; auto|].
+    rewrite E1, E2, dedup_nodup by (apply H; auto). split; auto; lia. }
+  destruct (A (adj g)) as [E1 E2].
+  { intros l Hl. apply In_nth with (d := []) in Hl as [i [_ <-]]. apply (i_nodup _ I). }
+  rewrite E1, E2, Z.sub_0_r. destruct g; reflexivity.
+Qed.
+
 End Proofs.
